@@ -443,6 +443,41 @@ PROPS = {
             "not probed by this stream",
         ],
     ),
+    "C18": dict(
+        prop_file="Properties/C18.v",
+        check_module="C18Check",
+        theorems={
+            "C18_native_args_sub2": [],
+            "C18_conversion_error_str1": [],
+            "C18_native_error_wrapped": [],
+            "C18_fail0_is_task_failure": [],
+            "C18_native_unknown": [],
+        },
+        n_quick=200, n_thorough=2000,
+        gates=["feature.native", "feature.native_arity4", "feature.native_value_call", "feature.reentry",
+               "outcome.conversion_error", "outcome.ETaskFailure", "outcome.EProcedureNotFound",
+               "rb1.callee_ok", "rb1.callee_failed", "reserved_names", "corpus.reentry", "corpus.natives"],
+        rule="the VM stream with native-heavy programs: natives fail0() / log1(Value) / str1(&str) / nil1(Nilable<i64>) / "
+             "tab1(&CaoLangTable) / sub2(i64,i64) / cat2(&str,&str) / mix3(f64,i64,Value) / t4(i64,f64,bool,&str) and the "
+             "re-entrant call0 / call1 / try1 / rb1, called through CallNative and through native function values "
+             "(DynamicCall, sometimes with a wrong number of arguments), from main and from nested functions / "
+             "closures / callbacks, with arguments of every value kind; every native records the converted arguments "
+             "it received in the host log (log1 and rb1 also the stack heights). Code 1: model vs implementation on "
+             "outcome (TaskFailure name, number of the parameter whose conversion failed), globals, host log, stack "
+             "shape, remaining budget. Code 2: rb1 entries (heights after a successful run_function equal the heights "
+             "before; call depth also after a failed one), reserved names rejected. Non-trivial / distinct as for VM",
+        trusted_base=COMMON_TB + [
+            "modelled, not verified: traits.rs (VmFunction impls), vm/instr_execution.rs (call_native), vm.rs "
+            "(run_function), value.rs (TryFrom conversions), the natives registered by harness/src/vmrun.rs",
+        ],
+        assumptions=[
+            "PARTIAL: theorems cover the arity-2 wrapper with i64 conversions, the &str conversion failure and error "
+            "wrapping for every menu native; arities 1/3/4, the other conversions and reentry_balanced are claimed by "
+            "the correspondence run only",
+            "host functions are the fixed menu; `register_native_function` itself is not modelled (the reserved-name "
+            "rule is checked on the implementation directly)",
+        ],
+    ),
     "VM": dict(
         prop_file="Properties/VM.v",
         check_module="VmCheck",
